@@ -90,6 +90,47 @@ fn run(line: &str) -> String {
             }
             out.join(" ")
         }
+        // W <workers> <nconn> <order> <chunk>...: the public WorkerPool (default batch size 32, large queues), <nconn>
+        // connections each delivering the same chunks, dispatched back-to-back (order s = segment-major, c =
+        // connection-major) so that bursts far above the batch size queue up at a worker.
+        // Result: "<number of results> <the result token if all are equal | MIXED | ->"
+        "W" => {
+            use hnv_common::pkt::*;
+            let workers: usize = t[1].parse().unwrap();
+            let nconn: usize = t[2].parse().unwrap();
+            let chunks: Vec<Vec<u8>> = t[4..].iter().map(|c| unhex_or_dash(c)).collect();
+            let frame = |c: usize, payload: &[u8]| -> Vec<u8> {
+                let ip = Ip4::new([10, 1, (c >> 8) as u8, c as u8], [10, 0, 1, 1]);
+                let mut tcp = Tcp::new(20000 + c as u16, 443, ACK | PSH);
+                tcp.payload = payload.to_vec();
+                ether4(&ip, &tcp)
+            };
+            let mut frames = vec![];
+            if t[3] == "s" { for ch in &chunks { for c in 0..nconn { frames.push(frame(c, ch)); } } }
+            else { for c in 0..nconn { for ch in &chunks { frames.push(frame(c, ch)); } } }
+            let (tx, rx) = std::sync::mpsc::channel();
+            let pool = match huginn_net_tls::WorkerPool::new(workers, 16384, 32, 10, tx, 4096, None) { Ok(p) => p, Err(_) => return "POOLERR".into() };
+            for f in frames { if let huginn_net_tls::DispatchResult::Dropped = pool.dispatch(f) { return "POOLERR dropped".into(); } }
+            let mut toks: Vec<String> = vec![];
+            let (mut quiet, mut idle) = (0, 0);
+            loop {
+                match rx.recv_timeout(std::time::Duration::from_millis(40)) {
+                    Ok(o) => { toks.push(client_token(&o.sig, "*")); quiet = 0; idle = 0; }
+                    Err(_) => {
+                        idle += 1;
+                        if pool.stats().workers.iter().all(|w| w.queue_size == 0) { quiet += 1; if quiet >= 5 { break; } }
+                        if idle >= 75 { break; }
+                    }
+                }
+            }
+            pool.shutdown();
+            let n = toks.len();
+            toks.sort(); toks.dedup();
+            let tok = match toks.len() { 0 => "-".to_string(), 1 => toks[0].clone(), _ => "MIXED".to_string() };
+            let mut res = format!("{} {}", n, tok);
+            if n != nconn { res.push_str(&format!("\t!pool reported {} results for {} connections carrying one ClientHello each", n, nconn)); }
+            res
+        }
         _ => panic!("bad case"),
     }
 }
@@ -204,6 +245,16 @@ fn gen(r: &mut Rng, tier: &Tier, out: &mut Vec<String>) {
             if !queues[k].is_empty() { evs.push((k as u8, queues[k].remove(0))); }
         }
         out.push(p_line(*r.pick(&[0usize, 1, 2, 3, 8]), &evs));
+    }
+    // worker pool under bursts: 100+ connections x 3..6 segments queued back-to-back at 1..2 workers (batch size 32)
+    for i in 0..tier.scale(4, 24) {
+        let rec = recs[i % corpus.max(1).min(recs.len())].clone();
+        let n = r.range(2, 5) as usize;
+        let mut cuts = random_cuts(r, rec.len(), n);
+        if cuts[0] < 5 { cuts[0] = 5.min(rec.len()); cuts.sort(); }
+        let ch = cut_at(&rec, &cuts);
+        out.push(format!("W {} {} {} {}", r.range(1, 2), r.range(100, 160), if r.chance(1, 2) { "s" } else { "c" },
+                         ch.iter().map(|c| hex_or_dash(c)).collect::<Vec<_>>().join(" ")));
     }
     // malformed: damaged records split anywhere
     for _ in 0..tier.scale(300, 3000) {
